@@ -172,6 +172,10 @@ def body_text(body, ind, ctxkind):
                 else:
                     m = f" until _symx_cond({mod[1]!r})"
             out.append(f"{pad}do {st[1]}(){m}")
+        elif k == "newobj":
+            out.append(f"{pad}_obj_{st[1]} = {st[1]}()")
+        elif k == "doobj":
+            out.append(f"{pad}do _obj_{st[1]}")
         elif k == "terminate":
             out.append(f"{pad}terminate")
         elif k == "terminate_sim":
@@ -443,8 +447,10 @@ class Ref:
             elif k == "if":
                 if self.cond(st[1]):
                     yield from self.run_body(st[2], kind, inv)
-            elif k == "do":
-                yield from self.run_do(st[1], st[2], kind)
+            elif k == "newobj":
+                pass  # a behaviour object; it can be invoked again once it has finished or been stopped
+            elif k in ("do", "doobj"):
+                yield from self.run_do(st[1], st[2] if k == "do" else None, kind)
                 if kind == "behavior":
                     self.check_inv(inv)  # resumed after a finished sub-behaviour
             else:
